@@ -1089,8 +1089,8 @@ func TestVerifKeepAliveSess(t *testing.T) {
 		seen := map[string]bool{}
 		for _, ln := range strings.Split(string(b), "\n") {
 			ln = strings.TrimSpace(ln)
-			if !strings.HasPrefix(ln, "kss ") {
-				continue // `ka`/`kas` lines belong to the stream `loop`
+			if !strings.HasPrefix(ln, "kss ") || strings.Contains(ln, " scn=shttp|") {
+				continue // `ka`/`kas` lines belong to the stream `loop`, `kss … scn=shttp|…` to the stream `http`
 			}
 			scn := ""
 			for _, tok := range strings.Fields(ln) {
